@@ -710,13 +710,67 @@ End Arrives.
 (* ---------------------------------------------------------------- numeric tracer on the generated definition *)
 From PyrexProofs Require Import C01_numeric.
 
-Lemma numeric_direct_degenerate_lemma p (f : R -> R) :
-  Path_direct p = true -> 0 < Path_dz p -> Rabs (BPath_z1 p - BPath_z0 p) < Path_dz p ->
-  BPath_z_integral p f = 0.
+(* the interval count helper of the numeric tracer: int(|length|/dz), but at least one interval for a
+   non-empty leg (pyrex fix b58341b); legs of non-positive length keep their truncated count *)
+Lemma sign_pos x : 0 < x -> sign x = 1.
 Proof.
-  intros Hd Hdz Hc. unfold BPath_z_integral. rewrite Hd. cbv zeta.
-  destruct (grid_degenerate f (BPath_z0 p) (BPath_z1 p) (Path_dz p) Hdz Hc) as (E & _ & _).
-  cbv zeta in E. rewrite E. reflexivity.
+  intros H. unfold sign. assert (E1 : Rltb x 0 = false) by (apply Rltb_false; lra).
+  assert (E2 : Rltb 0 x = true) by (apply Rltb_true; lra). rewrite E1, E2. reflexivity.
+Qed.
+Lemma sign_zero : sign 0 = 0.
+Proof. unfold sign. assert (E : Rltb 0 0 = false) by (apply Rltb_false; lra). rewrite E. reflexivity. Qed.
+
+Lemma n_intervals_long len dz : 0 < dz -> dz <= len ->
+  _n_intervals len dz = Rtrunc (Rabs len / dz) /\ (1 <= _n_intervals len dz)%Z.
+Proof.
+  intros Hdz Hl. unfold _n_intervals.
+  assert (Hx : 1 <= Rabs len / dz) by (rewrite Rabs_right by lra; apply Rle_div_r; lra).
+  rewrite (Rmax_left len 0) by lra.
+  rewrite sign_pos by lra. rewrite Rmax_left by lra.
+  destruct (Rtrunc_nonneg (Rabs len / dz)) as [H1 H2]; [lra|].
+  split; [reflexivity|].
+  assert (0 < IZR (Rtrunc (Rabs len / dz))) by lra. apply lt_IZR in H. lia.
+Qed.
+
+Lemma Rtrunc_one : Rtrunc 1 = 1%Z.
+Proof.
+  destruct (Rtrunc_nonneg 1) as [H1 H2]; [lra|].
+  assert (0 < IZR (Rtrunc 1) < 2) by lra. destruct H as [Ha Hb]. apply lt_IZR in Ha. apply lt_IZR in Hb. lia.
+Qed.
+
+Lemma n_intervals_short len dz : 0 < dz -> 0 < len < dz -> _n_intervals len dz = 1%Z.
+Proof.
+  intros Hdz Hl. unfold _n_intervals.
+  rewrite (Rmax_left len 0) by lra. rewrite sign_pos by lra.
+  assert (Hx : Rabs len / dz < 1) by (rewrite Rabs_right by lra; apply Rlt_div_l; lra).
+  rewrite Rmax_right by lra. apply Rtrunc_one.
+Qed.
+
+Lemma n_intervals_empty len dz : 0 < dz -> - dz < len <= 0 -> _n_intervals len dz = 0%Z.
+Proof.
+  intros Hdz Hl. unfold _n_intervals.
+  rewrite (Rmax_right len 0) by lra. rewrite sign_zero.
+  assert (Hx : 0 <= Rabs len / dz < 1).
+  { rewrite Rabs_left1 by lra. split; [apply Rdiv_le_0_compat; lra | apply Rlt_div_l; lra]. }
+  rewrite Rmax_left by lra. apply Rtrunc_small. exact Hx.
+Qed.
+
+(* a direct leg shorter than dz: one trapezoid spanning the whole leg; an empty leg: 0 *)
+Lemma numeric_direct_short_lemma p (f : R -> R) :
+  Path_direct p = true -> 0 < Path_dz p ->
+  (0 < Rabs (BPath_z1 p - BPath_z0 p) < Path_dz p ->
+     BPath_z_integral p f =
+       trapz_dx (map f (linspace (BPath_z0 p) (BPath_z1 p) 2)) (Rabs (linspace_step (BPath_z0 p) (BPath_z1 p) 2)) /\
+     Rabs (linspace_step (BPath_z0 p) (BPath_z1 p) 2) = Rabs (BPath_z1 p - BPath_z0 p)) /\
+  (BPath_z1 p = BPath_z0 p -> BPath_z_integral p f = 0).
+Proof.
+  intros Hd Hdz. split.
+  - intros Hc. unfold BPath_z_integral. rewrite Hd. cbv zeta.
+    rewrite (n_intervals_short _ _ Hdz Hc). split; [reflexivity|].
+    unfold linspace_step. simpl. f_equal. field.
+  - intros E. unfold BPath_z_integral. rewrite Hd. cbv zeta. rewrite E.
+    replace (BPath_z0 p - BPath_z0 p) with 0 by ring. rewrite Rabs_R0.
+    rewrite (n_intervals_empty 0 _ Hdz) by lra. reflexivity.
 Qed.
 
 Lemma numeric_direct_grid_lemma p (f : R -> R) :
@@ -733,7 +787,9 @@ Proof.
   assert (E : BPath_z_integral p f =
               trapz_dx (map f (linspace (BPath_z0 p) (BPath_z1 p) (Rtrunc (Rabs (BPath_z1 p - BPath_z0 p) / Path_dz p) + 1)))
                        (Rabs (linspace_step (BPath_z0 p) (BPath_z1 p) (Rtrunc (Rabs (BPath_z1 p - BPath_z0 p) / Path_dz p) + 1)))).
-  { unfold BPath_z_integral. rewrite Hd. reflexivity. }
+  { unfold BPath_z_integral. rewrite Hd. cbv zeta.
+    destruct (n_intervals_long (Rabs (BPath_z1 p - BPath_z0 p)) (Path_dz p) Hdz Hc) as [En _].
+    rewrite En, Rabs_Rabsolu. reflexivity. }
   split; [exact E|]. split; [exact Hstep|]. rewrite E. apply trapz_between_sums. apply Rabs_pos.
 Qed.
 
